@@ -827,6 +827,8 @@ def _masks_hfs_intersection(sym, ts, Ds, hfs):
             lss = [_leg_structure_combine_charges_sum(tt1, DD1) for tt1, DD1, in zip(tt, DD)]
             ma = [_merge_masks_sum(ls1, ms1) for ls1, ms1 in zip(lss, mss)]
             reduced_ls = _leg_structure_combine_charges_sum(tuple(keeped_ts[:no]), tuple(keeped_Ds[:no]))
+            # a direct sum might have lost some charges of its summands; keep only those recorded for the node
+            ma = [{k: v for k, v in m1.items() if k in t1[it - 1]} for m1, t1 in zip(ma, t)]
         _mask_falsify_mismatches_(ma[0], ma[1])
         msks[0].insert(io, ma[0])
         msks[1].insert(io, ma[1])
